@@ -4,10 +4,54 @@ CHECK = {
     "harness": "c13_grid_index.cpp",
     "srcs": ["src/containers/grid/GridIndexMapping.cpp"],
     "flavours": ["asan"],
-    "quick": {"shards": 4, "timeout": 600},
-    "thorough": {"shards": 16, "timeout": 3600},
-    "required_categories": [],
-    "required_oracles": [],
-    "required_counters": [],
-    "rule": "tbd", "level_text": "tbd", "level_note": ASAN_NOTE, "technique": "tbd", "assumptions": [],
+    "quick": {"shards": 4, "timeout": 900},
+    "thorough": {"shards": 16, "timeout": 5400},
+    "required_categories": ["float2", "double2", "float3", "double3",
+                            "generic", "multiple", "half_multiple", "tiny", "limits", "mixed", "symmetric",
+                            "res_dyadic", "res_decimal", "res_generic",
+                            "axis_ge_1e5_cells", "float_axis_ge_5e5_cells",
+                            "axis_straddles_zero", "axis_negative_only", "axis_zero_width"],
+    "required_oracles": ["in_bounds", "half_cell", "exact.half_cell", "centre_maps_to_own_index",
+                         "spacing", "exact.spacing", "cover", "exact.cover", "cells_have_centres"],
+    "required_counters": ["points_checked", "exact_regime_coordinates", "centres_mapped_back",
+                          "centre_pairs_checked", "shards_with_ge_90pct_decisive_axes"],
+    "rule": "case = one grid: scalar/dimension = case index mod 4 (float2, double2, float3, double3); resolution dyadic "
+            "2^-9..2^3, decimal (1e-3 .. 10) or log-uniform in [1e-3,10]; extent by the maximalRange constructor or by an "
+            "interval whose axes are generic / exact multiples / half multiples of the resolution (computed in the scalar "
+            "type or rounded from the real value) / narrower than one cell (zero width included) / pinned to -1e3 and/or "
+            "+1e3 / mixed, placed uniformly, across zero, or at log-spaced distances from zero; per-axis cell counts from 1 "
+            "to 2e6 with the product kept <= 1e7; the grid is direct-, copy- or default-constructed-then-assigned; per grid "
+            "60 (quick) / 100 (thorough) points of the closed extent: all corners, then per coordinate lo, hi, uniform, "
+            "cell borders (table centre +- res/2), centres, k*res and (k+0.5)*res in scalar arithmetic and correctly "
+            "rounded, log-spaced offsets 1e-8..2 res from a bound, lattice points (res/4)Z, each with 0..3 nextafter steps, "
+            "clamped to the extent; plus 12 index tuples (first, last, alternating, random) mapped to centres and back, and "
+            "all (<=200 cells) or 100 sampled consecutive centre pairs per axis; non-trivial = not (resolution 1 with "
+            "integer bounds of magnitude <= 3), i.e. not the unit-resolution grid family of the unit tests",
+    "level_text": "exploration: the real GridIndexMapping<float|double, 2|3> is built for 4e4 (quick) / 2e6 (thorough) "
+                  "generated extents and resolutions and queried at 60/100 points each (corners, bounds, cell borders, "
+                  "centres, nextafter neighbours, random); the statement is evaluated on the returned indexes, centres "
+                  "and counts in long double: index < count, |p - centre| <= res/2 (+16 eps S rounding allowance; zero "
+                  "allowance when the resolution is a power of two and all operands lie on the res/4 lattice), centres "
+                  "map back to their own indexes, consecutive centres differ by res (16 eps S; exactly in the lattice "
+                  "regime), first/last cell reach the bounds; ASan+UBSan (float-cast-overflow: a negative quotient cast "
+                  "to size_t aborts) and libstdc++/Eigen assertions watch the same executions",
+    "level_note": ASAN_NOTE + "; the half-cell allowance 16 eps (max|bound| + 2 res) exceeds res/4 on about 7 % of the "
+                  "float axes (|bound|/res > 1.3e5): there an index off by one cell can hide inside the allowance and only "
+                  "the in-bounds, centre-round-trip and sanitizer monitors are decisive (counted in the evidence: "
+                  "axes_decisive / axes_total, float_axes_decisive / float_axes_total; a shard below 90 % of its float axes makes the run "
+                  "inconclusive)",
+    "technique": "runtime monitoring: sanitizer build + exact long-double evaluation of the stated relations on the "
+                 "library's own outputs over generated grids and points",
+    "assumptions": ["'at most 1e7 cells' is honoured in both readings: the product of the per-axis cell counts is <= 1e7 "
+                    "(so a 2e6-cell axis is only paired with 1- or 2-cell axes, and the maximalRange form stays below "
+                    "3162 (2D) / 215 (3D) cells per axis)",
+                    "'the first and last cells cover the extent's bounds' is read as: the first cell's lower edge is <= "
+                    "the lower bound and the last cell's upper edge is >= the upper bound (the library snaps centres to "
+                    "multiples of the resolution, so the first cell need not contain the lower bound itself)",
+                    "a point exactly on a cell border may be given to either adjacent cell (both centres are res/2 away)",
+                    "rounding allowance: S = max|bound| + 2 res per axis; forward-error bound of the centre table and of the "
+                    "quotient is 3.5 eps S for the half-cell relation and 3 eps S for the spacing (tolerance 16 eps S for both)",
+                    "bounds, resolution and points are values of the grid's scalar type; a float resolution 'in [1e-3,10]' "
+                    "is the float nearest to the decimal (e.g. 0.001f = 0.00100000005)",
+                    "g++ 12 ASan+UBSan runtime; asserts live (no -DNDEBUG)"],
 }
